@@ -292,7 +292,7 @@ def blocks(K):
             ex.call(ex.get_method(ppg, 'set_data'), [data, start, mkch()], {})
             return data
         pre = [n >= 1, start >= 1, start <= MAXMEM]
-        ps = K.paths(run, pre, setup)
+        ps = K.paths(run, pre, setup, expect_loops=True)
 
         def rep(m):
             nv = mval(m, n) if m is not None else 2500
